@@ -49,7 +49,11 @@ public:
   int link_file(const char *filename);
   int link();
 
-  void set_org(uint32_t value) { address = value * bytes_per_address; }
+  void set_org(uint32_t value)
+  {
+    address = value * bytes_per_address;
+    address_check = (uint32_t)address;
+  }
   //uint32_t get_low_address()  { return memory.low_address / bytes_per_address; }
   //uint32_t get_high_address() { return memory.high_address / bytes_per_address; }
 
@@ -90,6 +94,7 @@ public:
   list_output_t list_output;
   FILE *list;
   int address;
+  uint64_t address_check;
   int segment;
   int pass;
   int instruction_count;
